@@ -2,7 +2,7 @@
    StInv R: every cell of the s-th state satisfies R s (R is a parameter: "lies in the state's own region" gives
    separation; "lies in a region of the same thread or in a shared one" gives the thread discipline of
    Proofs/C07_Threads.v).  DomInv: the d-th domain owns its types dict (needs the D18 repair). *)
-From Coq Require Import List Bool Arith PeanoNat Lia.
+From Coq Require Import List Bool Arith PeanoNat Lia FinFun.
 From Verif Require Import Model.Store Proofs.C07_Frame.
 Import ListNotations.
 Open Scope list_scope.
@@ -266,3 +266,101 @@ Lemma ex_hist_nontrivial :
   (Nat.leb 5 (length (sts (fst r))) && Nat.leb 4 (length (doms (fst r))) &&
    Nat.ltb 2 (snd r (OOp 0, 2)) && negb (separated (fst r))) = true.
 Proof. vm_compute. reflexivity. Qed.
+
+(* ------------------------------------------------------------------ what the correspondence run compares
+   The per-step observables of the model that Corr/C07.v compares with the implementation are `may_change` (values
+   that a call may have changed) and `sharing` (pairs of roots with a common cell).  In the repaired configurations
+   they are provably empty / free of value-value pairs for EVERY history: a run of the implementation that shows a
+   changed value or two values sharing a mutable object therefore always disagrees with the model. *)
+Lemma mem_loc_true : forall l ls, mem_loc l ls = true -> In l ls.
+Proof.
+  intros l ls H. unfold mem_loc in H. apply existsb_exists in H as [x [Hx E]]. apply loc_eqb_eq in E; subst; auto.
+Qed.
+
+Lemma no_change_predicted_step : forall c m p, writes_fixed c = true -> Inv m -> may_change m (snd (step c m p)) = [].
+Proof.
+  intros c m p F H. unfold may_change.
+  assert (G : forall v, In v (values m) ->
+                existsb (fun l => mem_loc l (reach m v)) (writes (snd (step c m p))) = false).
+  { intros v Hv. destruct (existsb _ _) eqn:E; auto. exfalso.
+    apply existsb_exists in E as [l [Hl Hm]]. apply mem_loc_true in Hm.
+    pose proof (step_writes_ok c m p F) as W. unfold Wok in W. rewrite Forall_forall in W.
+    pose proof (reach_live m v H Hv) as L. rewrite Forall_forall in L.
+    eapply okw_live_disjoint; eauto. }
+  induction (values m) as [|v vs IH]; simpl; auto.
+  rewrite G by (left; auto). apply IH. intros v' Hv'. apply G. right; auto.
+Qed.
+
+Lemma no_change_predicted : forall c h p, writes_fixed c = true ->
+  may_change (fst (run c h start)) (snd (step c (fst (run c h start)) p)) = [].
+Proof. intros c h p F. apply no_change_predicted_step; auto. apply run_inv; auto. apply Inv_init. Qed.
+
+Lemma pairs_In : forall {A} (l : list A) a b, In (a, b) (pairs l) ->
+  exists l1 l2, l = l1 ++ a :: l2 /\ In b l2.
+Proof.
+  induction l as [|x r IH]; intros a b H; simpl in H; [contradiction|].
+  apply in_app_or in H as [H|H].
+  - apply in_map_iff in H as [y [E Hy]]. inversion E; subst. exists [], r. split; auto.
+  - destruct (IH a b H) as [l1 [l2 [E Hb]]]. exists (x :: l1), l2. subst; split; auto.
+Qed.
+
+Lemma NoDup_app' : forall {A} (a b : list A), NoDup a -> NoDup b -> (forall x, In x a -> In x b -> False) ->
+  NoDup (a ++ b).
+Proof.
+  induction a as [|x a IH]; intros b Ha Hb H; simpl; auto.
+  inversion Ha; subst. constructor.
+  - intros Hin. apply in_app_or in Hin as [Hin|Hin]; auto. apply (H x); simpl; auto.
+  - apply IH; auto. intros y Hy1 Hy2. apply (H y); simpl; auto.
+Qed.
+
+Lemma NoDup_handles : forall m, NoDup (handles m).
+Proof.
+  intros m. unfold handles, values.
+  assert (I1 : NoDup (map ODom (seq 0 (length (doms m))))) by
+    (apply Injective_map_NoDup; [intros x y E; inversion E; auto | apply seq_NoDup]).
+  assert (I2 : NoDup (map OSt (seq 0 (length (sts m))))) by
+    (apply Injective_map_NoDup; [intros x y E; inversion E; auto | apply seq_NoDup]).
+  assert (I3 : NoDup (map OOp (seq 0 (length (ops m))))) by
+    (apply Injective_map_NoDup; [intros x y E; inversion E; auto | apply seq_NoDup]).
+  apply NoDup_app'; auto.
+  - constructor.
+    + intros H. apply in_app_or in H as [H|H]; apply in_map_iff in H as [i [E _]]; discriminate.
+    + apply NoDup_app'; auto.
+      intros x H1 H2. apply in_map_iff in H1 as [i [<- _]]. apply in_map_iff in H2 as [j [E _]]. discriminate.
+  - intros x H1 H2. apply in_map_iff in H2 as [j [<- _]]. destruct H1 as [H1|H1]; [discriminate|].
+    apply in_app_or in H1 as [H1|H1]; apply in_map_iff in H1 as [i [E _]]; discriminate.
+Qed.
+
+(* two values never share a cell in a separated model state *)
+Lemma no_value_sharing_of_separated : forall m, separated m = true ->
+  forall p, In p (sharing m) -> protected (fst p) && protected (snd p) = false.
+Proof.
+  intros m S [a b] Hp. unfold sharing in Hp. apply filter_In in Hp as [Hp Hs]. cbn [fst snd] in *.
+  destruct (protected a && protected b) eqn:E; auto. exfalso.
+  apply andb_true_iff in E as [Pa Pb].
+  destruct (pairs_In (handles m) a b Hp) as [l1 [l2 [El Hb]]].
+  assert (Nab : a <> b).
+  { intros <-. pose proof (NoDup_handles m) as N. rewrite El in N. apply NoDup_remove_2 in N.
+    apply N. apply in_or_app; right; auto. }
+  assert (Va : In a (values m)).
+  { assert (Ha : In a (handles m)) by (rewrite El; apply in_or_app; right; left; auto).
+    unfold handles in Ha. apply in_app_or in Ha as [Ha|Ha]; auto.
+    apply in_map_iff in Ha as [i [<- _]]. discriminate. }
+  assert (Vb : In b (values m)).
+  { assert (Hb' : In b (handles m)) by (rewrite El; apply in_or_app; right; right; auto).
+    unfold handles in Hb'. apply in_app_or in Hb' as [Hb'|Hb']; auto.
+    apply in_map_iff in Hb' as [i [<- _]]. discriminate. }
+  unfold separated in S. rewrite forallb_forall in S.
+  unfold shares in Hs. apply existsb_exists in Hs as [l [Hla Hlb]]. apply mem_loc_true in Hlb.
+  pose proof (S a Va) as Sa. rewrite forallb_forall in Sa. specialize (Sa l Hla). apply owner_eqb_eq in Sa.
+  pose proof (S b Vb) as Sb. rewrite forallb_forall in Sb. specialize (Sb l Hlb). apply owner_eqb_eq in Sb.
+  congruence.
+Qed.
+
+Lemma no_value_sharing_predicted : forall c h, sep_fixed c = true ->
+  existsb (fun p => protected (fst p) && protected (snd p)) (sharing (fst (run c h start))) = false.
+Proof.
+  intros c h F. destruct (existsb _ _) eqn:E; auto. exfalso.
+  apply existsb_exists in E as [p [Hp Hv]].
+  rewrite (no_value_sharing_of_separated _ (separation_holds c h F) p Hp) in Hv. discriminate.
+Qed.
